@@ -1085,15 +1085,35 @@ def selected_kinds(an, sel):
     return by
 
 
+def _paths(t):
+    out = {}
+
+    def path(fid, depth=0):
+        if fid in out:
+            return out[fid]
+        e = t.get(fid)
+        if e is None or depth > len(t) + 1:
+            return None
+        if e[0] is None:
+            out[fid] = ""
+        else:
+            pp = path(e[0], depth + 1)
+            out[fid] = None if pp is None else (pp + "/" + e[1]).lstrip("/")
+        return out[fid]
+    for f in t:
+        path(f)
+    return out
+
+
 def reoccupied(an, sel):
-    """a selected deletion whose basis (parent, name) is held by another versioned id in the working tree"""
+    """a selected deletion whose basis PATH is held by another versioned id in the working tree"""
     by = selected_kinds(an, sel)
     B, W = an["B"], an["W"]
+    bp, wp = _paths(B), _paths(W)
+    taken = {p for f, p in wp.items() if p is not None}
     for fid, kinds in by.items():
-        if "delete" in kinds:
-            b = B[fid]
-            if any(e[0] == b[0] and e[1] == b[1] for f2, e in W.items() if f2 != fid):
-                return True
+        if "delete" in kinds and fid not in W and bp.get(fid) is not None and bp[fid] in taken:
+            return True
     return False
 
 
@@ -1433,7 +1453,7 @@ def run(ctx, nscen=None, cap=None):
     keep, fresh, pathcheck = probe_variant()
     variant = "".join("T" if x else "F" for x in (keep, fresh, pathcheck))
     ctx.extra["variant"] = dict(keepExec=keep, freshExec=fresh, pathCheck=pathcheck)
-    nscen = nscen or ctx.pick(16, 160)
+    nscen = nscen or ctx.pick(16, 400)
     cap = cap or ctx.pick(20, 64)
     seeds = [(ctx.seed, FORMATS[i % len(FORMATS)], i) for i in range(nscen)]
     run_scenarios(ctx, seeds, cap, variant)
